@@ -110,20 +110,22 @@ prop("C01",
      "absence of deadlock as a behaviour over all schedules and programs; progress of the retry loop (livelock).")
 
 prop("C02",
-     [ts.rule_T1, ts.rule_T2, pos.rule_P1, st2.rule_D1, st.rule_M1, st.rule_E1],
+     [ts.rule_T1, ts.rule_T2, pos.rule_P1, st2.rule_D1, st.rule_M1, st.rule_E1, ts.rule_M4, A("rule_Q3")],
      "T1 every guard()/data_mut()/hold construction/protected-cell access is preceded on its path by a successful acquisition of "
      "the same receiver in the matching mode (path-sensitive typestate over every safe or acquiring function, eager arguments "
      "included); T2 user closures run only while held; P1 position k of every container guard is member k; D1 guard Deref targets "
-     "the cell of the lock its Drop releases; E1 the locks acquired are exactly the members' leaves.",
+     "the cell of the lock its Drop releases; E1 the locks acquired are exactly the members' leaves; M4/Q3 no release is ever issued "
+     "for a receiver the call does not hold (a stray release would free another thread's exclusive hold).",
      "mutual exclusion and per-lock value continuity as observed over interleavings/histories (they follow from the raw lock's "
      "contract plus these rules, by argument not by check).")
 
 prop("C03",
-     [ts2.rule_R1, sig.rule_R2, LEAK_SCOPED, ts2.rule_R3key, ts2.rule_R4, ts2.rule_R5, ts.rule_M4, A("rule_E5")],
+     [ts2.rule_R1, sig.rule_R2, LEAK_SCOPED, ts2.rule_R3key, ts2.rule_R4, ts2.rule_R5, ts.rule_M4, A("rule_E5"), A("rule_Y3")],
      "R1 unlock-style APIs release every lock of the consumed guard before returning its key; R2 key field declared after hold "
      "fields in every guard (drop order); R3 scoped calls hold nothing at return and at every unwinding exit; R3k the key outlives "
      "the closure; R4 a failed try returns Err(key) holding nothing and without running user code; R5 guard-returning APIs move the "
-     "key exactly once into the result; E5 the collection-level try helpers roll back everything before reporting failure.",
+     "key exactly once into the result; E5 collection-level acquisitions hold every member exactly once on success and none on "
+     "failure; Y3 the retrying collection never starts a blocking acquisition while it still holds a member.",
      "the single-thread history enumeration itself (the rules are per-API invariants that make every history safe).")
 
 prop("C04",
